@@ -28,6 +28,13 @@ Example rdlen_shape_agrees :
   Gen.rdlen_shape_unknown_src = rdlen_shape unknown_schema.
 Proof. split; reflexivity. Qed.
 
+(* the constants of the structural checks as the source has them: type bitmap
+   (2 header octets, a block of 2 is empty, a block above 34 is too long),
+   cookie (client 8, server at most 32 and at least 8, i.e. 16..40 in total),
+   client subnet families 1 / 2, IPSECKEY gateway sizes 0 / 4 / 16 *)
+Example check_consts_agree : Gen.check_consts_src = [2; 2; 34; 8; 32; 8; 1; 2; 0; 4; 16].
+Proof. reflexivity. Qed.
+
 Definition memN (t : N) (l : list N) : bool := existsb (N.eqb t) l.
 
 (* the rows plus the irregular types are exactly the types of AllRecordData *)
@@ -184,13 +191,24 @@ Proof.
   vm_compute. auto.
 Qed.
 
+Lemma table_no_post :
+  forallb (fun r => match s_post (snd r) with PNone => true | _ => false end) schema_table_regular = true.
+Proof. vm_compute. reflexivity. Qed.
+
+Lemma schema_of_post t s v : schema_of t = Some s -> post_ok (s_post s) v = true.
+Proof.
+  intros H. apply schema_of_cases in H as [H| ->]; [|reflexivity].
+  pose proof table_no_post as Hall. rewrite forallb_forall in Hall. specialize (Hall _ H).
+  cbn [snd] in Hall. destruct (s_post s); try discriminate. reflexivity.
+Qed.
+
 Theorem table_ctor_sound t s v pre post :
   schema_of t = Some s -> ctor_accepts s v = true ->
   overlong s v = false -> short_rest s v = false ->
   parse_rdata pname_dec s (pre ++ compose s v ++ post) (len pre) (len pre + len (compose s v)) = Ok v /\
   rdlen s false v = Ok (Some (len (compose s v))).
 Proof.
-  intros Hs Hc Ho Hr. pose proof (ctor_accepts_wf s v Hc Ho Hr) as Hw. split.
+  intros Hs Hc Ho Hr. pose proof (ctor_accepts_wf s v Hc Ho Hr (schema_of_post t s v Hs)) as Hw. split.
   - apply (table_parse_compose t s v pre post Hs Hw).
   - apply (rdlen_exact s v Hw).
 Qed.
